@@ -187,6 +187,7 @@ func (w *World) runOp(t *simrt.Task, op *OpSpec, retry bool) *CallRec {
 	cr.tfBefore = w.Sim.TimeFaultEvents
 	cr.LatestAtStart = w.Latest().N
 	cr.HandleVerAtStart = hs.Version
+	cr.SelfStaleAtStart = hs.SelfStale
 	var before dirSnap
 	t.Quiet(func() {
 		if hs.Open && op.Kind != OpOpen {
@@ -302,14 +303,16 @@ func (w *World) invoke(t *simrt.Task, hs *HandleState, op *OpSpec, cr *CallRec) 
 			if span < 1 {
 				span = 1
 			}
+			nBefore := len(cr.Written)
 			err := tr.Add(w.writeFn(t, cr, &op.Txns[i], func() uint64 { return base }))
-			if n := len(cr.Written); n > 0 && !cr.Written[n-1].Empty && err == nil {
+			if n := len(cr.Written); n > nBefore && !cr.Written[n-1].Empty && err == nil {
 				next = base + uint64(span)
 			}
 			if err != nil {
 				// a refused table poisons nothing: the Addition stays open,
 				// the caller may add further tables and commit, as the API allows
-				if n := len(cr.Written); n > 0 {
+				// (the closure has not run at all when creating the temporary file failed)
+				if n := len(cr.Written); n > nBefore {
 					cr.Written[n-1].Rejected = true
 				}
 				if firstErr == nil {
@@ -395,6 +398,10 @@ func (w *World) readOp(t *simrt.Task, hs *HandleState, op *OpSpec, cr *CallRec) 
 	refs, logs, err := ScanTable(hs.St.Merged())
 	t.Quiet(func() {
 		w.probe("read-op")
+		if err != nil && cr.IOFaulted {
+			w.probe("read-failed-under-io-fault")
+			return
+		}
 		if err != nil {
 			w.violate(w.concProp("C10"), "read-failed", "readop", fmt.Sprintf("scan through handle %d (tables %v) failed: %v", hs.Idx, names, err))
 			return
@@ -468,8 +475,17 @@ func (w *World) afterOp(t *simrt.Task, hs *HandleState, cr *CallRec, before dirS
 			w.probe("call-failed-under-time-fault")
 		}
 	}
+	if cr.IOFaulted {
+		w.probe("call-under-io-fault")
+		w.probe("call-under-io-fault/" + cr.Kind + ":" + cr.Class)
+	}
 	latest := w.Latest()
 	isAdd := cr.Kind == OpAdd || cr.Kind == OpAddMulti || cr.Kind == OpCommit
+	if cr.IOFaulted && cr.ListChanges > 0 && cr.Class != "ok" {
+		hs.SelfStale = true
+	} else if hs.Open && cr.Class != "panic" && equalStrings(reftable.SimNames(hs.St), latest.Names) {
+		hs.SelfStale = false
+	}
 
 	// ---- panics
 	if cr.Class == "panic" {
@@ -496,6 +512,10 @@ func (w *World) afterOp(t *simrt.Task, hs *HandleState, cr *CallRec, before dirS
 		switch {
 		case cr.Class == "ok" && nonEmpty > 0 && cr.Appends == 0:
 			w.violate("C04", "ack-mismatch", "ok-without-commit/"+cr.Kind, fmt.Sprintf("%s returned success but no commit of its %d table(s) happened", cr.Kind, nonEmpty))
+		case cr.Class != "ok" && cr.Appends > 0 && cr.IOFaulted:
+			// the call that met the injected error after its commit point:
+			// the outcome is reported as failed although it is durable
+			w.probe("io-fault-error-after-commit")
 		case cr.Class != "ok" && cr.Appends > 0 && !cr.TimeFaulted:
 			w.violate("C04", "ack-mismatch", "error-after-commit/"+cr.Kind+"/"+errSite(cr.Err), fmt.Sprintf("%s returned %q although its transaction was committed", cr.Kind, cr.Err))
 		case cr.Class == "ok" && nonEmpty == 0 && cr.Appends > 0:
@@ -512,6 +532,11 @@ func (w *World) afterOp(t *simrt.Task, hs *HandleState, cr *CallRec, before dirS
 				justified, why = true, "contention"
 			} else if w.staleByOthers(hs, cr) {
 				justified, why = true, "stale"
+			} else if cr.SelfStaleAtStart {
+				// knock-on of an injected error: the previous call through
+				// this handle committed and could not refresh the handle
+				justified, why = true, "stale-after-io-fault"
+				w.probe("lockfail-after-io-fault")
 			}
 		}
 		if !justified && (isAdd || cr.Kind == OpBegin) && cr.Appends == 0 {
@@ -524,6 +549,11 @@ func (w *World) afterOp(t *simrt.Task, hs *HandleState, cr *CallRec, before dirS
 				justified, why = true, r
 				w.probe("rejected-" + strings.SplitN(r, ":", 2)[0])
 			}
+		}
+		if !justified && cr.IOFaulted && (cr.Class == "error" || cr.Kind == OpBegin) {
+			// the call that met an injected I/O error may report failure;
+			// everything it left behind is still judged.
+			justified, why = true, "io-fault"
 		}
 		if !justified && cr.TimeFaulted && cr.Class == "error" {
 			// Oracle relaxation under faults, deliberate and narrow: a
@@ -567,6 +597,9 @@ func (w *World) afterOp(t *simrt.Task, hs *HandleState, cr *CallRec, before dirS
 				continue // the lock of an Addition that is still open: the handle is not idle
 			}
 			if c == "listlock" || c == "tablelock" || c == "temp" {
+				if w.excused[p] {
+					continue
+				}
 				if _, err := w.Sim.FS.Stat(p); err == nil {
 					left = append(left, c)
 				}
@@ -598,19 +631,19 @@ func (w *World) afterOp(t *simrt.Task, hs *HandleState, cr *CallRec, before dirS
 			w.violate("C04", "fresh-open", cr.Kind, fmt.Sprintf("NewStack returned version %d although version %d was committed before it was called", hs.Version, cr.LatestAtStart))
 		}
 	}
-	if (cr.Kind == OpOpen || cr.Kind == OpReopen) && cr.Class == "error" && !cr.TimeFaulted {
+	if (cr.Kind == OpOpen || cr.Kind == OpReopen) && cr.Class == "error" && !cr.TimeFaulted && !cr.IOFaulted {
 		// opening a directory whose list is healthy must succeed
 		w.violate("C05", "open-fails", "newstack/"+errSite(cr.Err), fmt.Sprintf("NewStack failed: %v", cr.Err))
 	}
 
 	// ---- stale handle (C09), sequential histories only
-	if w.Sequential && cr.StaleAtStart && before.OK && cr.Class != "panic" {
+	if w.Sequential && cr.StaleAtStart && before.OK && cr.Class != "panic" && !cr.IOFaulted {
 		w.checkStaleOp(hs, cr, before)
 	}
 	// C13: an expiry compaction through a current handle, undisturbed, has
 	// removed exactly the expired entries when it returns success - also
 	// when it decided that there was nothing to rewrite.
-	if w.Sequential && cr.Kind == OpExpire && cr.Class == "ok" && hs.Open && !cr.StaleAtStart && !cr.SawLockEEXIST && cr.Spec.Exp != nil && cr.LatestAtStart < len(w.Versions) {
+	if w.Sequential && cr.Kind == OpExpire && cr.Class == "ok" && hs.Open && !cr.IOFaulted && !cr.StaleAtStart && !cr.SawLockEEXIST && cr.Spec.Exp != nil && cr.LatestAtStart < len(w.Versions) {
 		start := w.Versions[cr.LatestAtStart]
 		if start.View != nil && len(start.Names) > 0 && w.Latest().View != nil {
 			want := start.View.Clone()
@@ -624,7 +657,7 @@ func (w *World) afterOp(t *simrt.Task, hs *HandleState, cr *CallRec, before dirS
 	// C17: the automatic compaction that follows Add is attempted exactly
 	// when two adjacent tables share a size class - judged on the stack as
 	// this very Add left it, and only when nobody interfered.
-	if cr.Kind == OpAdd && cr.Class == "ok" && hs.Open && hs.Auto && cr.Appends == 1 && !cr.SawLockEEXIST && !cr.TimeFaulted && !cr.StaleAtStart && cr.AppendVersion > 0 {
+	if cr.Kind == OpAdd && cr.Class == "ok" && hs.Open && hs.Auto && cr.Appends == 1 && !cr.SawLockEEXIST && !cr.TimeFaulted && !cr.IOFaulted && !cr.StaleAtStart && cr.AppendVersion > 0 {
 		foreign := false
 		for _, v := range w.Versions[cr.AppendVersion:] {
 			if v.Task != cr.Task || v.Op != cr.Op {
@@ -647,12 +680,12 @@ func (w *World) afterOp(t *simrt.Task, hs *HandleState, cr *CallRec, before dirS
 		}
 	}
 	// C17: an auto-compaction that runs strictly reduces the number of tables
-	if w.Sequential && cr.Kind == OpAutoCompact && !cr.StaleAtStart && cr.Class == "ok" && hs.Open &&
+	if w.Sequential && cr.Kind == OpAutoCompact && !cr.StaleAtStart && !cr.IOFaulted && cr.Class == "ok" && hs.Open &&
 		hs.St.Stats.Attempts > cr.AttemptsBefore && hs.St.Stats.Failures == cr.FailuresBefore && cr.ListChanges == 0 {
 		w.violate("C17", "no-progress", "autocompact", "auto-compaction ran (attempted, no failure reported) but tables.list is unchanged")
 	}
 	// C17: "nothing to do" exactly when no two adjacent tables share a size class
-	if w.Sequential && cr.Kind == OpAutoCompact && !cr.StaleAtStart && cr.Class == "ok" && hs.Open && cr.LatestAtStart < len(w.Versions) {
+	if w.Sequential && cr.Kind == OpAutoCompact && !cr.StaleAtStart && !cr.IOFaulted && cr.Class == "ok" && hs.Open && cr.LatestAtStart < len(w.Versions) {
 		v := w.Versions[cr.LatestAtStart]
 		var sizes []int
 		for _, tc := range v.Tables {
@@ -669,7 +702,7 @@ func (w *World) afterOp(t *simrt.Task, hs *HandleState, cr *CallRec, before dirS
 		}
 	}
 	// Clean succeeds whenever the list lock is free and the handle is current (C16)
-	if cr.Kind == OpClean && cr.Class != "ok" && cr.Class != "panic" && !cr.StaleAtStart && !cr.SawLockEEXIST && !cr.TimeFaulted && !w.staleByOthers(hs, cr) {
+	if cr.Kind == OpClean && cr.Class != "ok" && cr.Class != "panic" && !cr.StaleAtStart && !cr.SawLockEEXIST && !cr.TimeFaulted && !cr.IOFaulted && !w.staleByOthers(hs, cr) {
 		w.violate("C16", "clean-failed", cr.Class+"/"+errSite(cr.Err), fmt.Sprintf("Clean through a current handle with the lock free failed: %v", cr.Err))
 	}
 }
